@@ -787,7 +787,9 @@ def finish(prop: str, tier: str, base_seed: int, merged: dict, engine: Any, shri
         "wall_s": round(wall, 2),
         "violations": len(reports),
     }
-    zero = [k for k, v in cov["probes"].items() if v == 0]
+    hazard = set(getattr(engine, "HAZARD_PROBES", ()))  # indicators of a defect: zero is the good answer
+    cov["hazard_probes_expected_zero"] = {k: v for k, v in cov["probes"].items() if k in hazard}
+    zero = [k for k, v in cov["probes"].items() if v == 0 and k not in hazard]
     if zero:
         ev["assumptions"].append("probes never hit in this run (unexplored): " + ", ".join(zero))
     EVIDENCE_DIR.mkdir(exist_ok=True)
